@@ -123,7 +123,27 @@ func SimC04(c *CheckCtx, i int, r *Rng) error {
 		return &RunOp{Args: a, Gens: gens, Sched: sched, Fresh: fresh}
 	}
 	sc := &Scenario{Kind: "compare-bytes", Module: m, Base: base}
-	if r.P(0.3) {
+	renameCase := !real && i%4 == 1
+	if renameCase {
+		// the world holds outputs written by OTHER versions of the generators, every run is forced: each
+		// output is replaced by a file of another length (what a fallback that writes into the old file
+		// instead of renaming over it gets wrong)
+		old := []proto.GenScript{gens[0]}
+		scfg := DrawScriptConfig(r)
+		for k := 1; k < len(gens); k++ {
+			if !isScripted(&gens[k]) {
+				old = append(old, gens[k])
+				continue
+			}
+			g := DrawScript(r, scfg, m, gens[k].Name)
+			g.Impl, g.NoAlias = gens[k].Impl, gens[k].NoAlias
+			old = append(old, g)
+		}
+		args.Force = true
+		setupRun := mkRun(simrt.Schedule{Default: "asc"}, args.Entrypoint, true)
+		setupRun.Gens = old
+		sc.Setup = []Op{{Kind: "run", Run: setupRun}}
+	} else if r.P(0.3) {
 		// start from a world that already holds outputs of an earlier run
 		sc.Setup = []Op{{Kind: "run", Run: mkRun(simrt.Schedule{Default: "asc"}, args.Entrypoint, true)}}
 	}
@@ -182,6 +202,11 @@ func SimC04(c *CheckCtx, i int, r *Rng) error {
 		faulty := mkRun(asc, args.Entrypoint, true)
 		kind := Pick(r, []string{"os.open", "os.write", "os.rename"})
 		faulty.Faults = []proto.Fault{{ExecSeq: -1, Kind: kind, Path: tmp, Phase: "exec", Nth: 0, Do: "errno:" + Pick(r, errnosFor(kind))}}
+		if renameCase {
+			// the destination cannot be renamed over: it is a mount point (EBUSY), on another device (EXDEV), immutable (EPERM)
+			kind = "os.rename"
+			faulty.Faults[0].Kind, faulty.Faults[0].Do = kind, "errno:"+Pick(r, []string{"EBUSY", "EXDEV", "EBUSY", "EPERM", "ETXTBSY"})
+		}
 		if kind == "os.rename" {
 			faulty.Faults[0].Path = tmp + " -> " + strings.TrimSuffix(tmp, ".tmp")
 		}
@@ -202,6 +227,23 @@ func SimC04(c *CheckCtx, i int, r *Rng) error {
 		{Kind: "warm", Run: mkRun(asc, spell(r, m, allEps), true)},
 		{Kind: "run", Run: mkRun(asc, args.Entrypoint, false)},
 	}})
+	if !real && i%3 == 0 {
+		// the same history of runs and in-place edits (same size, same modification time: nothing but the
+		// content tells the versions apart), once with every run in a fresh process and once in one
+		// process: whatever a process remembers about files, both end in the same tree
+		pi := Pick(r, eps)
+		f := m.Pkgs[pi].Files[0].Name
+		hist := func(fresh bool) []Op {
+			a := args
+			a.All, a.Force = true, false
+			run := func(first bool) Op {
+				return Op{Kind: "run", Run: &RunOp{Args: a, Gens: gens, Sched: asc, Fresh: fresh || first}}
+			}
+			// (two runs after the first edit: the second one finds nothing to do and leaves the tree at rest)
+			return []Op{run(true), {Kind: "touch", K: pi, Path: f, SameSize: true}, run(false), run(false), {Kind: "touch", K: pi, Path: f, SameSize: true, MTime: "keep"}, run(false)}
+		}
+		sc.Variants = append(sc.Variants, Variant{Name: "pair:edits:fresh-processes", Ops: hist(true)}, Variant{Name: "pair:edits:one-process", Ops: hist(false)})
+	}
 	if clash {
 		// ... nor on which single package the process generated before (in a scratch copy)
 		for pi := 2; pi < len(m.Pkgs); pi++ {
